@@ -921,7 +921,7 @@ package router
 //@ spec func ccInv(cc *connCtx) bool = cc.buffer == nil || (0 <= cc.readN && cc.readN < len(cc.buffer) && (cc.readingHdr ==> len(cc.buffer) == 2))
 
 //@ func (e *gnetServer) OnTraffic(c gnet.Conn) (action gnet.Action)
-//@   props C13 C01
+//@   props C13 C01 C15
 //@   requires e != nil && c != nil && routerReady(e.r) && e.logger != nil && gnetBuffered(c) >= 0
 //@   ghost inb int = gnetBuffered(c)
 //@   ghost gcc *connCtx = nil
@@ -941,14 +941,21 @@ package router
 //@   ghost nAns int = 0
 //@   aftercall UnpackMsg?: gM = ret0
 //@   aftercall UnpackMsg?: nQ = nQ + (ret1 == nil ? 1 : 0)
+//@   ghost gAdm error = nil
+//@   ghost nAsk int = 0
+//@   aftercall UnpackMsg?: nAsk = 0
+//@   aftercall UnpackMsg?: gAdm = nil
+//@   oncall limiterAllowN: nAsk = nAsk + 1
+//@   aftercall limiterAllowN: gAdm = ret0
+//@   callsite limiterAllowN: [C15:query-cost-charged-to-the-client] arg0 == e.r && arg1 == cc.remoteAddr.ip && arg2 == 2
 //@   aftercall Add?: gCCR = ret0
 //@   aftercall mustHaveRespB?: gB = ret0
 //@   oncall Write?: nAns = nAns + 1
 //@   oncall go: nAns = nAns + 1
 //@   ensures [C13:every-decoded-query-is-answered-or-handed-on-once] nAns == nQ
 //@   callsite mustHaveRespB?: [C13:over-limit-answer-is-refused] arg0 == gM && arg1 == nil && arg2 == dnsmsg.RCodeRefused && arg3 == true
-//@   callsite Write?: [C13:over-limit-answer-is-written] arg0 == c && arg1 == gB && gCCR > e.maxConcurrent
-//@   callsite go: [C13:within-the-limit-handled] gCCR <= e.maxConcurrent && captures(m)
+//@   callsite Write?: [C13,C15:over-limit-or-refused-answer-is-written] arg0 == c && arg1 == gB && (gCCR > e.maxConcurrent || (nAsk == 1 && gAdm != nil))
+//@   callsite go: [C13,C15:within-the-limits-handled] gCCR <= e.maxConcurrent && nAsk == 1 && gAdm == nil && captures(m)
 //@   loop 1:
 //@     modifies cc.readN, cc.buffer, cc.readingHdr, cc.err, pkgheaps(dnsmsg), bytes()
 //@     invariant gcc == cc && cc != nil && cc.idleTimer != nil && ccInv(cc) && inb >= 0 && nAns == nQ
